@@ -19,9 +19,9 @@ func C13(tier common.Tier) int {
 		depth = 2
 	}
 	run.SetRule("state = (family IMM|CTOR, package d|u, annotation mix, declaration history, spelling); each state is analysed by the real analyzers twice — subject type named directly and under the spelling — and the per-site verdicts (site identity -> codes) must be identical. Non-trivial = the direct spelling yields at least one diagnostic.",
-		fmt.Sprintf("all histories of depth<=%d over the C01/C02 encloser alphabet x 2 files, 3 annotation mixes, spellings {local alias, alias in a third package, renamed import, parenthesised type, alias of pointer type; use universe: also dot import}", depth))
+		fmt.Sprintf("all histories of depth<=%d over the C01/C02 encloser alphabet x 2 files, 3 annotation mixes, spellings {local alias, alias in a third package, renamed import, parenthesised type, alias of pointer type, dot import (IMM/CTOR: with the using package's own T removed)}", depth))
 	run.Assume("go/types identical-type semantics; the direct spelling's verdicts are judged separately by C01/C02")
-	run.NotJudged("dot imports in the IMM/CTOR universe (the using package declares its own T and constructor-named functions, which a dot import forbids; the use universe covers them)", "generic aliases")
+	run.NotJudged("generic aliases")
 	fams := []*e1.Family{&e1.FamIMM, &e1.FamCTOR}
 	spells := []e1.Spell{e1.SpLocalAlias, e1.SpThirdAlias, e1.SpRenamedImp, e1.SpParen, e1.SpPtrAlias}
 	mixes := []e1.Mix{{Imm: true, Ctor: 1, Mut: true}, {Imm: true, Ctor: 2}, {Imm: true, Ctor: 0, Mut: false, Extra: 2}}
@@ -47,6 +47,15 @@ func C13(tier common.Tier) int {
 							v.Spell = sp
 							vo := e1.Observe(fam, &v)
 							compareSpell(run, fam, &v, bo, vo)
+						}
+						if inU {
+							// dot import: only possible when the using package declares no T of its own
+							nb := *base
+							nb.Mix.NoOwn = true
+							nbo := e1.Observe(fam, &nb)
+							v := nb
+							v.Spell = e1.SpDotImport
+							compareSpell(run, fam, &v, nbo, e1.Observe(fam, &v))
 						}
 						if idx%997 == 1 {
 							run.Sample(map[string]any{"family": fam.Name, "spec": e1.SpecJSON(base), "spellings": len(spells)})
